@@ -133,6 +133,8 @@ protected:
         auto const & term = termIt->second;
         auto & names_ = _namesForTerm(term);
         names_.erase(std::find(names_.begin(), names_.end(), name));
+        // A term without any name left must not be reported by contains(term) / nameForTerm(term)
+        if (names_.empty()) { termToNames.erase(term); }
         nameToTerm.erase(termIt);
         return true;
     }
